@@ -253,6 +253,7 @@ class RowKernel:
     source: str = ""
     origin: str = ""
     meta: Dict[str, object] = field(default_factory=dict)
+    cuts: List[int] = field(default_factory=list)      # indices in `lets` where a new stage definition starts
 
 
 # ---------------------------------------------------------------------------------------------------------------- translation
@@ -721,15 +722,78 @@ def lean_type_of(ty: str) -> str:
     return lean_type(ty)
 
 
-def render_lean(k: RowKernel) -> str:
-    res_ty = " × ".join(lean_type_of(t) for _, t in k.results)
-    lines = [f"def {k.lean_name} " + " ".join(f"({n} : {lean_type_of(t)})" for n, t in k.params)
-             + f" : PyVec.Res ({res_ty}) :="]
-    for name, e in k.lets:
-        lines.append(f"  let {name} : {lean_type_of(e.ty)} := {lean_expr(e)}")
-    ok = " && ".join(k.checks) if k.checks else "true"
-    lines.append(f"  if {ok} then PyVec.Res.ok ({', '.join(n for n, _ in k.results)}) else PyVec.Res.shapeError")
+def free_vars(e: Ex, acc: set) -> set:
+    if e.kind == "var":
+        acc.add(e.name)
+    for a in e.args:
+        free_vars(a, acc)
+    return acc
+
+
+def has_grid(e: Ex) -> bool:
+    """some sub-expression is a 2-D grid, an index tuple of one, or a vector read through it"""
+    if e.ty not in LEAN_SCALAR and e.ty[0] in "mrw":
+        return True
+    return any(has_grid(a) for a in e.args)
+
+
+def stage_plan(k: RowKernel):
+    """-> [(inputs [(name, ty)], lets, checks, outputs [(name, ty)])] for the stages delimited by `k.cuts`.
+    A stage receives the parameters it reads and everything the previous stage hands over; it hands over every value defined so
+    far that a later stage (or the result) still reads.  The tests of a stage are decided at its end."""
+    bounds = [0] + list(k.cuts) + [len(k.lets)]
+    types = dict(k.params)
+    types.update({n: e.ty for n, e in k.lets})
+    checks = set(k.checks)
+    plan, prev_out = [], []
+    for s in range(len(bounds) - 1):
+        seg = k.lets[bounds[s]:bounds[s + 1]]
+        used = set()
+        for _, e in seg:
+            free_vars(e, used)
+        later = {n for n, _ in k.results}
+        for _, e in k.lets[bounds[s + 1]:]:
+            free_vars(e, later)
+        if s == len(bounds) - 2:
+            out = list(k.results)
+        else:
+            out = [(n, types[n]) for n, _ in k.lets[:bounds[s + 1]] if n in later and n not in checks]
+        inputs = [(n, t) for n, t in k.params if n in used] + prev_out
+        plan.append((inputs, seg, [n for n, _ in seg if n in checks], out))
+        prev_out = out
+    return plan
+
+
+def render_stage(name, inputs, lets, checks, out) -> str:
+    res_ty = " × ".join(lean_type_of(t) for _, t in out)
+    lines = [f"def {name} " + " ".join(f"({n} : {lean_type_of(t)})" for n, t in inputs) + f" : PyVec.Res ({res_ty}) :="]
+    for n, e in lets:
+        lines.append(f"  let {n} : {lean_type_of(e.ty)} := {lean_expr(e)}")
+    ok = " && ".join(checks) if checks else "true"
+    lines.append(f"  if {ok} then PyVec.Res.ok ({', '.join(n for n, _ in out)}) else PyVec.Res.shapeError")
     return "\n".join(lines) + "\n"
+
+
+def render_lean(k: RowKernel) -> str:
+    if not k.cuts:
+        return render_stage(k.lean_name, k.params, k.lets, k.checks, k.results)
+    plan = stage_plan(k)
+    text = []
+    for s, (inputs, lets, checks, out) in enumerate(plan):
+        text.append(render_stage(f"{k.lean_name}_s{s + 1}", inputs, lets, checks, out))
+    res_ty = " × ".join(lean_type_of(t) for _, t in k.results)
+    lines = [f"/-- the stages composed: a stage that meets a shape / bounds error ends the row -/",
+             f"def {k.lean_name} " + " ".join(f"({n} : {lean_type_of(t)})" for n, t in k.params) + f" : PyVec.Res ({res_ty}) :="]
+    for s, (inputs, _, _, out) in enumerate(plan):
+        call = f"{k.lean_name}_s{s + 1} " + " ".join(n for n, _ in inputs)
+        if s == len(plan) - 1:
+            lines.append(f"  {call}")
+        else:
+            lines.append(f"  match {call} with")
+            lines.append("  | PyVec.Res.shapeError => PyVec.Res.shapeError")
+            lines.append(f"  | PyVec.Res.ok ({', '.join(n for n, _ in out)}) =>")
+    text.append("\n".join(lines) + "\n")
+    return "\n".join(text)
 
 
 # ---------------------------------------------------------------------------------------------------------------- evaluator
